@@ -13,7 +13,6 @@ var notApplicable = map[string]string{
 	"C07": "Diff/Apply/Copy/filter/Count are pure in-memory tree functions: no schedule, clock, peer, stream or fault influences the result, so simulation would only be input generation in disguise.",
 	"C14": "Ignore matching is a pure function of (pattern list, path, is-directory); deciding it needs a reference matcher over generated inputs, not a simulator. The no-traversal-below-ignored-directories clause is observed as a probe in syncsim only.",
 	"C15": "Pure function whose oracle is Docker's own matcher; the only offline copy is the vendored code under test. No schedule, time or fault dimension.",
-	"C35": "Needs real child processes and real one-second waits: os/exec offers no seam, a synctest bubble cannot advance its clock while a goroutine sits in wait4, and an add-only hook cannot virtualise Wait/Signal/Kill; running it against the real clock would be observation, not simulation.",
 	"C36": "Argument-vector construction and URL validation are pure functions of the URL.",
 	"C37": "Configuration merge/validation is a pure function over a finite product of field values (bounded enumeration, not simulation).",
 	"C38": "Parse/format round trip is a pure function of the string.",
@@ -117,7 +116,7 @@ func writeManifest(root string) {
 	}
 }
 
-var hookCommits = []string{"a713816", "3772002", "7d61760", "d33e9eb"}
+var hookCommits = []string{"a713816", "3772002", "7d61760", "d33e9eb", "d4ec52f"}
 
 var engineKinds = map[string]string{
 	"wiresim": "byte streams and transports under fragmentation, short I/O and injected failure (rsync, framing, handshakes, logging, stream writers)",
